@@ -21,6 +21,8 @@ def _streams(prop, quick_random, thorough_random):
             # draining rests on the per-connection read giving up when its context ends, whatever the reader holds
             # (C17's stream: real transports + generated traces over the tracing connection)
             out.append(("cancel", ["-n", "234" if tier == "quick" else "3034"]))
+            # a second serving run on the same object under the same context serves (and other short histories)
+            out.append(("history", ["-n", "8" if tier == "quick" else "32"]))
         return out
     return f
 
